@@ -765,12 +765,13 @@ def install(lib, np_):
     k = h['n_clusters'].t
     cx.may_raise('ValueError', k > s.shape.dims[0], 'KMeans: n_samples < n_clusters')
     h['fitted'] = (k, s.shape.dims[1])
+    h['data_tt'] = s.tt
     return o
 
   @eattr('kmeans', 'cluster_centers_')
   def _km_cc(cx, o):
     k, d = cx.p.heap[o.oid]['fitted']
-    return cx.new(None, [k, d], 'f')
+    return cx.new(None, [k, d], 'f', tt=cx.p.heap[o.oid].get('data_tt'))      # cluster centres move with the data
 
   @ext('sklearn.preprocessing.normalize', 'ASSUMED: rows scaled to unit l2 norm')
   def _normalize(cx, X, **kw):
